@@ -2,11 +2,12 @@
    PARTIAL: "only save writes" is proved for every operation sequence of the executable loader model, the
    frame of the writing primitives, of saving one Manifest and of the whole save step (only files named by
    Manifest paths can change) and the type-preserving refresh are proved for all inputs; that DIST/IGNORE/
-   TIMESTAMP and out-of-scope entries survive a whole update is decided by the correspondence runs (content+mtime listings of real trees). *)
+   TIMESTAMP and out-of-scope entries survive a whole-directory update is decided by the correspondence runs (content+mtime listings of real trees);
+   for the single-path API (update_entry_for_path) the preservation of DIST and TIMESTAMP entries is proved (Proofs/OnePath.v). *)
 From Coq Require Import List NArith ZArith Bool.
 From Gemato Require Import Py.PyStr Py.PyPath Gen.Tables Model.Entry Model.Text Model.OpenPGP Model.Hash
   Model.FS Model.Verify Model.Loader Model.Update Exec.Sx Exec.Oracles Exec.Tree.
-From Gemato Require Import Proofs.Frame Proofs.SaveAll.
+From Gemato Require Import Proofs.Frame Proofs.SaveAll Proofs.OnePath.
 Import ListNotations.
 Open Scope N_scope.
 
@@ -70,3 +71,14 @@ Theorem C10_refresh_keeps_type : forall e size c,
   end.
 Proof. exact refresh_keeps_type. Qed.
 Print Assumptions C10_refresh_keeps_type.
+
+(* the single-path API update_entry_for_path(path, new_entry_type, hashes): every Manifest loaded before the call is loaded
+   afterwards and its DIST and TIMESTAMP entries are the same entries in the same order - whatever the path, the entry
+   type and the hash set (a DIST entry whose name equals the path included) *)
+Theorem C10_single_path_keeps_dist_timestamp : forall (L : hashlib) decompress pgp_verify w l path ty hs l',
+  update_one_path L decompress pgp_verify w l path ty hs = Ok l' ->
+  forall mp m, get_m l mp = Some m ->
+  exists m', get_m l' mp = Some m' /\
+             filter dt (map snd (mf_entries m')) = filter dt (map snd (mf_entries m)).
+Proof. exact update_one_path_pres. Qed.
+Print Assumptions C10_single_path_keeps_dist_timestamp.
